@@ -50,6 +50,8 @@ func init() {
 				More: []Edit{{File: "lintcmd/runner/runner.go", Old: "\t// If set to true, Runner will populate results with data relevant to testing analyzers\n\tTestMode bool\n", New: "\t// If set to true, Runner will populate results with data relevant to testing analyzers\n\tTestMode bool\n\tStrict   bool\n"}}},
 			{Name: "gomod-not-hashed", File: "go/loader/hash.go", Rule: "R4.2", KeyPart: "Module",
 				Old: "\t\t\t} else {\n\t\t\t\tfmt.Fprintf(key, \"file %s %x\\n\", pkg.Module.GoMod, h)\n\t\t\t}", New: "\t\t\t} else {\n\t\t\t\t_ = h\n\t\t\t}"},
+			{Name: "config-lists-joined-into-the-key", File: "lintcmd/runner/runner.go", Rule: "R4.8", KeyPart: "config-lists-rendered-injectively",
+				Old: "\tfmt.Fprintf(h, \"cfg %#v\\n\", hashCfg)\n", New: "\tfmt.Fprintf(h, \"cfg %s %s %s\\n\", hashCfg.Initialisms, hashCfg.DotImportWhitelist, hashCfg.HTTPStatusCodeWhitelist)\n"},
 			{Name: "imports-not-hashed", File: "go/loader/hash.go", Rule: "R4.2", KeyPart: "Imports",
 				Old: "\t\t\tid, err := getBuildid(dep.ExportFile)\n\t\t\tif err == nil {\n\t\t\t\tfmt.Fprintf(key, \"import %s %s\\n\", dep.PkgPath, id)\n\t\t\t} else {",
 				New: "\t\t\tid, err := getBuildid(dep.ExportFile)\n\t\t\tif err == nil {\n\t\t\t\t_ = id\n\t\t\t\tfmt.Fprintf(key, \"import %s\\n\", dep.PkgPath)\n\t\t\t} else {"},
@@ -551,9 +553,25 @@ func runC04(c *Ctx) {
 		})
 		c.Note("R4.1: Config fields cleared before hashing: %v", SortedKeys(cleared))
 		cfgT := c.NamedType("config", "Config").Underlying().(*types.Struct)
+		// the configuration is written as a whole (an operand of type config.Config), or field by field
+		whole := false
+		for _, w := range doWrites {
+			for _, a := range w.Common().Args {
+				if SliceHas(a, SliceOpts{ThroughCalls: true}, func(v ssa.Value) bool {
+					mi, ok := v.(*ssa.MakeInterface)
+					return ok && strings.HasSuffix(mi.X.Type().String(), "/config.Config")
+				}) {
+					whole = true
+				}
+			}
+		}
 		for f := range cfgT.Fields() {
-			ok := !cleared[f.Name()] || f.Name() == "Checks"
-			c.Check("config.Config."+f.Name()+"::in-key", do.Pos(), ok, "Config.%s must be part of the hashed configuration (only Checks may be cleared: it is applied after loading cached results)", f.Name())
+			if f.Name() == "Checks" {
+				c.Check("config.Config."+f.Name()+"::in-key", do.Pos(), true, "Checks is applied after loading cached results and is deliberately not part of the key")
+				continue
+			}
+			ok := !cleared[f.Name()] && (whole || hashedDo["config.Config."+f.Name()])
+			c.Check("config.Config."+f.Name()+"::in-key", do.Pos(), ok, "Config.%s must be part of the hashed configuration (only Checks may be left out: it is applied after loading cached results); whole struct written: %v, cleared: %v", f.Name(), whole, cleared[f.Name()])
 		}
 	})
 
@@ -862,6 +880,124 @@ func runC04(c *Ctx) {
 	})
 
 	c.Rule("R4.4b", func() { checksReadOnMissPath(c) })
+
+	// R4.8: user-controlled lists enter the key through an injective rendering.
+	// The configuration's lists (initialisms, whitelists) are arbitrary strings
+	// from staticcheck.conf. Written with %#v or %q every element is quoted, so
+	// different lists give different key material; joined with a separator, or
+	// printed with %s/%v, ["a,b"] and ["a","b"] (or ["a b"] and ["a","b"]) are
+	// the same bytes, and editing one into the other is served from the cache
+	// although the analyzers see different options.
+	c.Rule("R4.8", func() {
+		c.Floor("R4.8", 1)
+		isCfgList := func(v ssa.Value) bool {
+			t := v.Type()
+			if p, ok := t.(*types.Pointer); ok {
+				t = p.Elem()
+			}
+			if strings.HasSuffix(t.String(), "/config.Config") {
+				return true
+			}
+			var base ssa.Value
+			var idx int
+			switch x := v.(type) {
+			case *ssa.FieldAddr:
+				base, idx = x.X, x.Field
+			case *ssa.Field:
+				base, idx = x.X, x.Field
+			default:
+				return false
+			}
+			owner, f := FieldOf(base.Type(), idx)
+			if f == nil || shortOwner(owner) != "config.Config" {
+				return false
+			}
+			_, isSlice := f.Type().Underlying().(*types.Slice)
+			return isSlice
+		}
+		n := 0
+		for _, w := range doWrites {
+			args := w.Common().Args
+			// fmt.Fprintf(h, format, a...): the variadic operands
+			if CalleeName(w.Common()) != "fmt.Fprintf" || len(args) < 3 {
+				for _, a := range args {
+					if SliceHas(a, SliceOpts{ThroughCalls: true}, isCfgList) {
+						n++
+						c.Check(FuncKey(w.Parent())+"::config-lists-rendered-injectively#"+itoa(n), w.Pos(), false, "configuration lists are written into the key by %s; only fmt.Fprintf with %%#v or %%q is known to keep element boundaries", CalleeName(w.Common()))
+					}
+				}
+				continue
+			}
+			format, isConst := constStringVal(args[1])
+			var verbs []string
+			if isConst {
+				for i := 0; i < len(format); i++ {
+					if format[i] != '%' {
+						continue
+					}
+					j := i + 1
+					for j < len(format) && strings.ContainsRune("#+- 0123456789.*[]", rune(format[j])) {
+						j++
+					}
+					if j < len(format) {
+						if format[j] != '%' {
+							verbs = append(verbs, format[i:j+1])
+						}
+						i = j
+					}
+				}
+			}
+			// the operands: elements stored into the variadic slice, in order
+			var operands []ssa.Value
+			if sl, ok := args[2].(*ssa.Slice); ok {
+				if al, ok := sl.X.(*ssa.Alloc); ok && al.Referrers() != nil {
+					byIdx := map[int64]ssa.Value{}
+					for _, r := range *al.Referrers() {
+						ia, ok := r.(*ssa.IndexAddr)
+						if !ok || ia.Referrers() == nil {
+							continue
+						}
+						k, _ := ConstInt(ia.Index)
+						for _, rr := range *ia.Referrers() {
+							if st, ok := rr.(*ssa.Store); ok && st.Addr == ssa.Value(ia) {
+								byIdx[k] = st.Val
+							}
+						}
+					}
+					for i := int64(0); i < int64(len(byIdx)); i++ {
+						operands = append(operands, byIdx[i])
+					}
+				}
+			}
+			for i, op := range operands {
+				if op == nil || !SliceHas(op, SliceOpts{ThroughCalls: true}, isCfgList) {
+					continue
+				}
+				n++
+				verb := "?"
+				if i < len(verbs) {
+					verb = verbs[i]
+				}
+				joined := SliceHas(op, SliceOpts{ThroughCalls: true}, func(v ssa.Value) bool {
+					call, ok := v.(*ssa.Call)
+					if !ok {
+						return false
+					}
+					name := CalleeName(&call.Call)
+					return name == "strings.Join" || strings.HasPrefix(name, "fmt.Sprint")
+				})
+				ok := !joined && (verb == "%#v" || verb == "%q")
+				how := "with verb " + verb
+				if joined {
+					how = "joined into one string"
+				}
+				c.Check(FuncKey(w.Parent())+"::config-lists-rendered-injectively#"+itoa(n), w.Pos(), ok, "the configuration's lists are user-provided strings; they are written into the action key %s, which does not keep element boundaries ([\"a,b\"] and [\"a\",\"b\"] give the same key although analyzers see different options); use %%#v or %%q", how)
+			}
+		}
+		if n == 0 {
+			c.Undecided("no hash write of the configuration found in the key computation")
+		}
+	})
 
 	c.Rule("R4.5", func() {
 		c.Floor("R4.5", 10)
